@@ -44,6 +44,26 @@ def maxAlive (ss : List Srv) : Nat :=
 def handle : Handler := fun op inp impl =>
   match op with
   | "osserver" => ConfModel.Driver.OSCmd.judgeServer inp impl
+  | "fill" =>
+    -- every request handed to the client carries the test name in its request headers (and in the
+    -- headers of its raw HTTP request, which is what goes on the wire), the server's host and port,
+    -- and the server's certificate exactly when the server uses TLS
+    if !(isNull (field impl "panic")) || bool (field impl "hang") then
+      { agree := false, holds := false, why := "batch panicked or hung" } else
+    let reqs := arr (field impl "reqs")
+    let n := nat (field inp "n")
+    let raw := bool (field inp "rawReq")
+    let tls := bool (field inp "useTLS")
+    let isRef := bool (field inp "isRef")
+    let ok := reqs.all fun r =>
+      strList (field r "hdrName") == [str (field r "name")] &&
+      (!raw || (bool (field r "raw") && strList (field r "rawHdrName") == [str (field r "name")])) &&
+      str (field r "host") == "127.0.0.1" && nat (field r "port") == 12345 && bool (field r "hasCert") == tls
+    -- the reference server additionally gets its expectation headers, on both header lists
+    let refOK := reqs.all fun r => (nat (field r "expectHdrs") > 0) == isRef && (!raw || (nat (field r "rawExpectHdrs") > 0) == isRef)
+    let holds := ok && reqs.length == n
+    { agree := holds && refOK, holds := holds, nontrivial := raw || tls, cls := "fill",
+      why := if holds then "" else "request not filled in as required (test name in request headers / raw request headers, host, port, certificate): " ++ (field impl "reqs").compress }
   | "run" =>
     if !(isNull (field impl "panic")) then
       { agree := false, holds := false, why := "panic: " ++ str (field impl "panic") } else
